@@ -476,13 +476,29 @@ func (e *env) subset(t *target, mask int) []*ctypes.SignData {
 	return out
 }
 
+var errInapplicable = fmt.Errorf("inapplicable combination")
+
+func tryApply(c corr, m *model) (ok bool) {
+	defer func() {
+		if r := recover(); r != nil {
+			ok = false
+		}
+	}()
+	c.Apply(m)
+	return true
+}
+
 // input packs the transaction input of a case and says whether it is one of the
 // reference encodings.
 func (e *env) input(c caseT) ([]byte, bool, error) {
 	t := e.s.tg[c.Kind]
 	m := e.s.reference(e.s.bases[t.Base], t, e.subset(t, c.Sigs))
 	for _, i := range c.Corr {
-		e.menus[c.Kind][i].Apply(m)
+		if !tryApply(e.menus[c.Kind][i], m) {
+			// the leaf no longer exists after the first corruption (e.g. a
+			// dropped validator): the pair is not expressible
+			return nil, false, errInapplicable
+		}
 	}
 	data, err := m.pack(e.abi)
 	if err != nil {
@@ -644,7 +660,11 @@ func (e *env) runCase(c caseT) {
 	data, isRef, err := e.input(c)
 	if err != nil {
 		// the corrupted tree cannot be ABI-encoded at all (e.g. negative uint): nothing to offer
-		e.stats["unpackable"]++
+		if err == errInapplicable {
+			e.stats["inapplicable-pair"]++
+		} else {
+			e.stats["unpackable"]++
+		}
 		return
 	}
 	info := c.Tx != "" && c.Tx != "nonce+1" && c.Tx != "legacy-envelope"
